@@ -26,6 +26,11 @@ static void bnd_merge_one(unsigned n1, int heap1, unsigned cap1, unsigned n2, in
   if (g < n1 + n2) __CPROVER_assert(H(&a, g) == (g < n1 ? hv_a[g] : hv_b[g - n1]), "merge: position-wise content this.other");
   __CPROVER_assert(HEAP(&a) ? EXTP(&a)->_capacity >= CNT(&a) : CNT(&a) <= 3, "merge: representation invariant");
   __CPROVER_assert((gh_allocs - a0) - (gh_frees - f0) == (HEAP(&a) ? 1u : 0u), "merge: exactly this' block stays live (source block released, nothing leaked)");
+#ifdef CV_CHECK_C20
+  /* C20: "carrying up to three ready coroutines in a suspend point" never allocates - also when they arrive by merging (the chain walk
+   * awaiter::resume_chain_lk builds its result with ret << y->resume()) */
+  if (!heap1 && n1 + n2 <= 3) __CPROVER_assert(!HEAP(&a) && gh_allocs == a0 + (heap2 ? 1u : 0u), "C20: a merge into an inline point that ends with at most three handles allocates nothing and stays inline");
+#endif
   if (HEAP(&a)) _ZdaPv((cv_i8 *)EXTP(&a)->_handles);
 }
 /* merging a suspend point into ITSELF (sp << std::move(sp), sp = std::move(sp)): "none is dropped, none is resumed twice" - the point keeps
